@@ -867,6 +867,10 @@ func runExchange(t *verifsim.Tape, cfg engine.Config, prop string) *engine.Outco
 					o.Features["invalid_result_arrived_valid"]++
 					continue
 				}
+				if brokenSite.Rule == "excl_max_beside_excl_min" {
+					o.Violate("invalid_result_accepted", "invalid_result:"+exclMaxDefect, "%s: the client returned %s although %s violates %s", where, gen.Show(got), brokenSite.Path, brokenSite.Rule)
+					continue
+				}
 				o.Violate("invalid_result_accepted", "invalid_result:"+brokenSite.Rule+":"+sig, "%s: the client returned %s although %s violates %s", where, gen.Show(got), brokenSite.Path, brokenSite.Rule)
 			} else if n := errName(cerr); !contains(ruleErrorNames[brokenSite.Rule], strings.TrimPrefix(n, "client:")) && !strings.Contains(cerr.Error(), "invalid") {
 				o.Violate("invalid_result_error", "invalid_result_error:"+n+":"+sig, "%s: result violating %s at %s made the client fail with %v", where, brokenSite.Rule, brokenSite.Path, cerr)
@@ -902,6 +906,7 @@ var ruleErrorNames = map[string][]string{
 	"max":        {"invalid_range"},
 	"excl_min":   {"invalid_range"},
 	"excl_max":   {"invalid_range"},
+	"excl_max_beside_excl_min": {"invalid_range"},
 	"min_length": {"invalid_length"},
 	"max_length": {"invalid_length"},
 }
@@ -1237,8 +1242,15 @@ func reachedClass(d *spec.Design, m *spec.Method, v gen.Violation) string {
 			}
 		}
 	}
+	if v.Rule == "excl_max_beside_excl_min" {
+		return exclMaxDefect
+	}
 	return v.Rule + ":loc=" + loc.String()
 }
+
+// exclMaxDefect: the signature of the known finding "an exclusive maximum declared next to an exclusive minimum is
+// never checked by generated validation code" (see gen.ExclMaxRule).
+const exclMaxDefect = "excl_max-never-checked-beside-excl_min"
 
 // classifyFailureAny recognises, in any mode, the defect classes that make a
 // request fail before the scenario's own subject is reached.
